@@ -6,11 +6,9 @@ CONSTANTS
   Dump = TRUE
 INVARIANT RefSound
 INVARIANT RefInBuffer
-INVARIANT PredInBase
-INVARIANT FixedImplAgrees
-INVARIANT NoUnexplained
-INVARIANT HazardNecessary
+INVARIANT ImplAgrees
+INVARIANT ObjAgrees
+INVARIANT SameView
 INVARIANT UnellipsifyOK
-INVARIANT PathsAgree
 INVARIANT Publish
 CHECK_DEADLOCK FALSE
